@@ -10,6 +10,28 @@ CHECKS = {
    text="Every (configuration, entry point) cell of a finite lattice (max_attempts<=3/4, per-class table, UNKNOWN cap, strategy table) is run on the real sync and async retry loops for every outcome sequence over 17 outcome kinds; a monitor derived from the statement counts invocations and retries per class; second calls on a used policy are compared with a fresh one.",
    note="attempt_timeout_s=None; bounds: max_attempts<=3 (4 thorough), listed limit values; virtual clock; classifier stubs deterministic"),
 }
+CHECKS.update({
+ "C02": dict(engine="E1 seq", cat="model_checking", ref="6 C02",
+   technique="exhaustive enumeration of run timings (durations, strategy answers, overshoot) on a virtual monotonic clock, wall-clock jumps as deviations; spec monitor + differential steady-vs-jumping wall clock",
+   text="For deadlines of 2-4 ticks every combination of attempt outcome, duration, strategy answer and sleeper overshoot up to max_attempts=3 is run on the real loops; the monitor checks on the owned monotonic timeline that no attempt begins after the deadline, no requested sleep exceeds the remaining time, total sleep <= deadline and late failures are not retried; wall-clock reads may jump by +/-1e9 s and the run must not change.",
+   note="attempt_timeout_s=None; tick resolution 0.125 s (library rounds to microseconds); sleeper overshoot >= 0"),
+ "C03": dict(engine="E1 seq", cat="model_checking", ref="6 C03",
+   technique="exhaustive outcome sequences x deviation-bounded environment answers on the real retry loop; monitor recomputes the set of holding stop conditions from the observed history",
+   text="Configuration lattice (caps, strategy tables, deadline, budget fill) x all outcome sequences x abort polls, handler decisions, durations and overshoot as bounded deviations; at every failed attempt the monitor derives which stop conditions hold and requires: no retry event/token/handler/sleep when one holds, a further attempt when none can hold, and a reported stop reason that is one of the holding conditions.",
+   note="attempt_timeout_s=None; budget/window and post-sleep deadline boundaries are don't-cares; deviation bound 1 quick / 2 thorough"),
+ "C04": dict(engine="E1 seq", cat="model_checking", ref="6 C04",
+   technique="exhaustive mixed exception/result outcome sequences x deviation-bounded stop reasons on 8 call-style entry points; object-identity oracle",
+   text="call() through Retry, Policy, RetryPolicy, context managers and async twins for every outcome sequence mixing exception and result failures and every stop reason; the returned object must be the successful attempt's own object, the raised exception the last attempt's own object with a traceback ending at its raise site, and RetryExhaustedError fields must describe the final attempt.",
+   note="attempt_timeout_s=None; aborted and cancellation-type endings judged by C13"),
+ "C05": dict(engine="E1 seq", cat="model_checking", ref="6 C05",
+   technique="exhaustive enumeration of strategy tables, class sequences and strategy answers (NaN, inf, negative, beyond remaining) on the real loop; exact expected delay on a dyadic time lattice",
+   text="For each strategy table (default / per-class / both, context or legacy signature) and every class sequence and strategy answer, the monitor checks that exactly the designated strategy is called once per granted retry with the true attempt number, the classifier's own Classification object, the previously applied delay, the remaining time and the cause, and that the sanitised, capped delay is what events, handler, before_sleep, sleeper and next_sleep_s carry.",
+   note="attempt_timeout_s=None; max_attempts 3 (4 thorough); values on the 0.125 s lattice"),
+ "C11": dict(engine="E1 seq", cat="model_checking", ref="6 C11",
+   technique="exhaustive outcome sequences x deviation-bounded stop reasons x single callback faults on 8 execute-style entry points; outcome-field oracle derived from the trace",
+   text="execute() through Retry, Policy (with and without retry), RetryPolicy and async twins: ok/value/stop_reason/attempts/last_class/cause/last_exception/last_result/next_sleep_s must describe the final attempt; only cancellation-type exceptions, nested RetryExhaustedError and the caller's strategy/classifier/sleeper errors may propagate.",
+   note="attempt_timeout_s=None; abort between a failure and its processing is a documented don't-care; stop_reason unchecked without retry component"),
+})
 PENDING = {
 }
 ALL = [f"C{n:02d}" for n in range(1, 21)]
